@@ -219,7 +219,8 @@ func (g *Gen) tplCallShape() []L.Stmt {
 		case 4:
 			// through select/unpack-free library callbacks that call back with fixed arguments
 			sig += ":via_xpcall"
-			ce = call(name("xpcall"), fn(nil, g.fn.vararg, blk(ret(mk(args)))), name("tostring"))
+			// (arguments after the handler are legal and ignored in 5.1)
+			ce = call(name("xpcall"), append([]L.Expr{fn(nil, g.fn.vararg, blk(ret(mk(args)))), name("tostring")}, g.simpleVals(g.n(4, "xpcallextra"))...)...)
 		}
 	}
 	ctx := g.n(13, "resctx")
